@@ -2,7 +2,10 @@
 """Regenerate MANIFEST.json from props.json (the per-property configuration used by ./check)."""
 import json, os, subprocess
 ROOT = os.path.dirname(os.path.dirname(os.path.abspath(__file__)))
+import glob
 props = json.load(open(os.path.join(ROOT, "props.json")))
+for f in sorted(glob.glob(os.path.join(ROOT, "props.d", "*.json"))):
+    props.update(json.load(open(f)))
 allp = [json.loads(l) for l in open(os.path.join(ROOT, "properties.jsonl"))]
 hooks = json.load(open(os.path.join(ROOT, "hooks.json")))
 checks, na = [], []
